@@ -38,9 +38,14 @@ WRAPS = {"bool": "BoolValue", "bytes": "BytesValue", "double": "DoubleValue", "f
          "int64": "Int64Value", "string": "StringValue", "uint32": "UInt32Value", "uint64": "UInt64Value"}
 
 
-def F(name, num, kind, card="implicit", group="", msg="", enum="", kkind="", vkind=""):
+def F(name, num, kind, card="implicit", group="", msg="", enum="", kkind="", vkind="", pyname=""):
+    """name is the proto field name; pyname the Python attribute name when the two differ (keywords get a trailing _)"""
     return {"name": name, "num": num, "kind": kind, "card": card, "group": group, "msg": msg, "enum": enum,
-            "kkind": kkind, "vkind": vkind}
+            "kkind": kkind, "vkind": vkind, "pyname": pyname or name}
+
+
+def py(f):
+    return f.get("pyname") or f["name"]
 
 
 _counter = itertools.count()
@@ -96,7 +101,7 @@ def make_bp(schema, modname=None):
                     ann = "Optional[%s]" % base
                 else:
                     ann = base
-            spec.append((f["name"], ann, fld))
+            spec.append((py(f), ann, fld))
         cls = dataclasses.make_dataclass(ty, spec, bases=(betterproto.Message,), eq=False, repr=False)
         cls.__module__ = modname
         setattr(mod, ty, cls)
@@ -111,7 +116,7 @@ def conc_bp(schema, C, ty, val):
         a = val.get(f["name"])
         if a is None or a["k"] == "unset":
             continue
-        kw[f["name"]] = conc_bp_field(schema, C, f, a)
+        kw[py(f)] = conc_bp_field(schema, C, f, a)
     return C[ty](**kw)
 
 
@@ -214,9 +219,9 @@ def obs_bp(schema, m, ty):
         k, name, card = f["kind"], f["name"], f["card"]
         if card == "oneof":
             sel, val = betterproto.which_one_of(m, f["group"])
-            out[name] = obs_bp_single(schema, f, k, val) if sel == name else {"k": "unset"}
+            out[name] = obs_bp_single(schema, f, k, val) if sel == py(f) else {"k": "unset"}
             continue
-        v = getattr(m, name)
+        v = getattr(m, py(f))
         if card == "repeated":
             if not isinstance(v, list):
                 raise ObsError("repeated field %s holds %r" % (name, type(v).__name__))
@@ -272,7 +277,7 @@ def file_descriptor(schema, pkg):
         if len(set(nums)) != len(nums):
             e.options.allow_alias = True
         for n, v in members:
-            e.value.add(name=ename.upper() + "_" + n, number=v)
+            e.value.add(name=n, number=v)
     for ty, fields in schema["types"].items():
         m = fd.message_type.add(name=ty)
         groups = []
